@@ -2,6 +2,9 @@ import GoframeModel.Ops.Group
 import GoframeModel.Spec.Group
 import GoframeModel.Lemmas.RefineE
 import GoframeModel.Lemmas.Group
+import GoframeModel.Props.C04
+import GoframeModel.Ops.Agg
+import GoframeModel.Lemmas.GroupTotal
 /-
   C05 — grouped Sum/Mean/Count equal the per-group arithmetic and conserve totals.
   Arithmetic is exact (finite floats are rationals); rounding is outside the model (DESIGN §3.4).
@@ -82,5 +85,49 @@ theorem gsum_default_cols {f : Frame} {n : Nat} (hs : f.Sorted) (hr : f.RectN n)
   subst hg
   intro c
   exact Grouped.foldRows_allColumnNames (fun r => Row.getD r k) k f hpos c
+
+
+/-- Group a frame by one key column (keys without NaN), sum a value column all of whose cells are finite
+numbers of any Go integer or float width: the grouped sums, added up, equal the frame-level column total. -/
+theorem grouped_sums_add_up (ω : Oracle) {f : Frame} {n : Nat} (hs : f.Sorted) (hr : f.RectN n) (k c : Str)
+    (hk : f.has k = true) (hp : C04.PlainKeys f [k]) (col : Col) (hc : f.get? c = some col)
+    (hnum : ∀ x ∈ col.data, ∃ q, numOf x = some (.fin q))
+    (g : Grouped) (hg : f.groupByString k = .ok g) :
+    FVal.sum (g.keyOrder.map (fun key => sumColumn ((Grouped.lookup g.groups key).getD []) c)) =
+      FVal.sum (col.data.filterMap numOf) := by
+  have _ := ω
+  obtain ⟨g', hg', _, hspec⟩ := C04.groupby_single_spec hs hr k hk hp
+  rw [hg] at hg'
+  cases hg'
+  have hne : f ≠ [] := GroupTotalLemmas.ne_nil_of_has hk
+  have hn : f.nrows = col.data.length := by
+    rw [Frame.nrows_of_rectN hr hne, (hr _ (GroupTotalLemmas.mem_of_get? hc)).1]
+  have hcol := GroupTotalLemmas.allRows_map_getD f c col hc hn
+  have hplain := Frame.keyTuple_allRows_plain f [k] hp
+  have hfin : ∀ r ∈ allRows f, ∀ v, numOf (Row.getD r c) = some v → ∃ q, v = .fin q := by
+    intro r hrm v hv
+    have hmem : Row.getD r c ∈ col.data := by
+      rw [← hcol]; exact List.mem_map.2 ⟨r, hrm, rfl⟩
+    obtain ⟨q, hq⟩ := hnum _ hmem
+    rw [hq] at hv
+    exact ⟨q, (Option.some.inj hv).symm⟩
+  have hcons := gsum_conserves [k] (allRows f) c hplain hfin
+  rw [← hspec] at hcons
+  unfold C04.groupsOf at hcons
+  rw [List.map_map, List.map_map] at hcons
+  have htot : Spec.groupSumSpec (allRows f) c = FVal.sum (col.data.filterMap numOf) := by
+    unfold Spec.groupSumSpec
+    rw [GroupTotalLemmas.numericCells_allRows f c col hc hn]
+  rw [← htot, ← hcons]
+  rfl
+
+/-- …and that total is what the frame-level Sum reports for a column of int / int64 / float cells -/
+theorem frame_sum_is_total (ω : Oracle) (d : List Cell)
+    (h : ∀ x ∈ d, (∃ v, x = .int .int v) ∨ (∃ v, x = .int .int64 v) ∨ (∃ s q, x = .flt s (.fin q))) :
+    seriesAgg ω .sum d = .ok (FVal.sum (d.filterMap numOf)) := by
+  unfold seriesAgg
+  rw [GroupTotalLemmas.asFloats_eq ω d h]
+  rfl
+
 
 end Goframe.C05
